@@ -46,7 +46,7 @@ func main() {
 			"source labels present or absent, dangling writers under the converter's refs) converted by ONE converter instance (estargz / zstd:chunked / external-TOC / lossless; common and per-layer option sets) "+
 			"through containerd's DefaultIndexConvertFunc, several times; every returned layer descriptor and the TOC image are recomputed independently from the committed blobs. "+
 			"non-trivial = a conversion in which the monitor saw at least two layer conversions of the one converter instance overlap in time and every converted layer was checked; distinct by (case descriptor, repetition, build)",
-		12, 120, body)
+		12, 60, body)
 }
 
 func quiet() {
@@ -83,9 +83,9 @@ func body(r *vf.Run) {
 // the schedule, the semantic oracle (plain and race stage) does.
 func nCases(r *vf.Run, stage string) int {
 	if stage == "conv" {
-		return r.N(7, 49)
+		return r.N(7, 28)
 	}
-	return r.N(21, 210)
+	return r.N(21, 105)
 }
 
 func nReps(stage string) int {
@@ -153,8 +153,8 @@ func top(r *vf.Run) {
 			jobs = append(jobs, job{stage, lo, hi, race})
 		}
 	}
-	split("conv", r.N(1, 4), true)
-	split("convp", r.N(3, 15), false)
+	split("conv", r.N(1, 2), true)
+	split("convp", r.N(3, 7), false)
 	jobs = append(jobs, job{stage: "direct", race: true})
 	ch := make(chan job)
 	var wg sync.WaitGroup
@@ -309,9 +309,9 @@ func runBatches(r *vf.Run, stage string, from, n, batch int, race bool) {
 			hi = n
 		}
 		journal := filepath.Join(r.Scratch, fmt.Sprintf("journal-%s-%d-%d", stage, lo, crashes))
-		timeout := 15 * time.Minute
+		timeout := 30 * time.Minute
 		if r.Thorough() {
-			timeout = 40 * time.Minute
+			timeout = 60 * time.Minute
 		}
 		ex := r.RunChild(vf.ChildSpec{
 			Stage: stage, Args: []string{strconv.Itoa(lo), strconv.Itoa(hi), journal},
@@ -535,6 +535,14 @@ func isDigits(s string) bool {
 	return true
 }
 
+// useScratchTmp: estargz.Build creates its temporary files with os.CreateTemp("", ...);
+// keep them in this stage's scratch directory (never /tmp).
+func useScratchTmp(r *vf.Run) {
+	tmp := filepath.Join(r.Scratch, "tmp")
+	_ = os.MkdirAll(tmp, 0o755)
+	os.Setenv("TMPDIR", tmp)
+}
+
 // child runs cases [lo,hi) of the conversion stage.
 func child(r *vf.Run) {
 	if len(r.ChildArgs) != 3 {
@@ -549,10 +557,7 @@ func child(r *vf.Run) {
 		return
 	}
 	defer jf.Close()
-	// estargz.Build creates its temporary files with os.CreateTemp("", ...): keep them in the scratch dir
-	tmp := filepath.Join(r.Scratch, "tmp")
-	_ = os.MkdirAll(tmp, 0o755)
-	os.Setenv("TMPDIR", tmp)
+	useScratchTmp(r)
 	if pf := os.Getenv("VERIF_C19_PROF"); pf != "" {
 		if f, err := os.Create(pf); err == nil {
 			_ = pprof.StartCPUProfile(f)
